@@ -214,9 +214,15 @@ class World:
     def probe_c19(self, obs, ctx):
         for s in obs['sups']:
             t, c = s['t'], s['c']
-            for o, ob in self.obj.items():
-                if job['classof'][o - 1] != t:
-                    continue
+            cands = [(o, ob) for o, ob in self.obj.items()
+                     if job['classof'][o - 1] == t]
+            # an instance that carries a declaration of its OWN in its
+            # __dict__ (implementer() applied to an instance): the proxy must
+            # not pick that up either
+            own = self.cls[t]()
+            implementer(self.iface[max(self.iface)])(own)
+            cands.append((0, own))
+            for o, ob in cands:
                 sup = super(self.cls[c], ob)
                 got = self.idset(providedBy(sup).flattened())
                 self.within(got, s['must'], s['may'], ctx,
